@@ -244,6 +244,43 @@ struct AppendRangeOp {
 };
 #endif
 
+// ---------------------------------------------------------------- floating point fills, printed bit by bit
+// count + value operations with values whose object representation matters (-0.0 compares equal to +0.0 and is not all-zero bits; a NaN payload)
+template <class V>
+void float_fill_script(const char *tname, Rng &rng, int nops) {
+  typedef typename V::value_type T;
+  typedef typename V::size_type SizeT;
+  g_out += "script fills<"; g_out += tname; g_out += ">\n";
+  const T vals[] = {static_cast<T>(-0.0), static_cast<T>(0.0), static_cast<T>(1.5), static_cast<T>(-2.5), static_cast<T>(-1.0) * static_cast<T>(0.0), static_cast<T>(1e-30)};
+  V v;
+  for (int i = 0; i < nops; ++i) {
+    const T x = vals[rng.below(6)];
+    unsigned sz = static_cast<unsigned>(v.size());
+    unsigned op = rng.below(6);
+    unsigned n = rng.below(4);
+    put("op %ld:", op);
+    switch (op) {
+      case 0: { V c(static_cast<SizeT>(n), x); v.swap(c); break; }
+      case 1: if (sz + n <= 8) v.resize(static_cast<SizeT>(sz + n), x); break;
+      case 2: v.assign(static_cast<SizeT>(n + 1), x); break;
+      case 3: if (sz + n <= 8) v.insert(v.begin() + rng.below(sz + 1), static_cast<SizeT>(n), x); break;
+      case 4: if (sz) v.erase(v.begin() + rng.below(sz)); break;
+#ifdef AMC_NONSTD_FEATURES
+      default: if (sz + n <= 8) v.append(static_cast<SizeT>(n), x); break;
+#else
+      default: if (sz + n <= 8) v.insert(v.end(), static_cast<SizeT>(n), x); break;
+#endif
+    }
+    for (typename V::const_iterator it = v.begin(); it != v.end(); ++it) {
+      unsigned char b[sizeof(T)];
+      std::memcpy(b, &*it, sizeof(T));
+      g_out += " ";
+      for (size_t k = 0; k < sizeof(T); ++k) { char h[4]; snprintf(h, sizeof h, "%02x", b[k]); g_out += h; }
+    }
+    g_out += "\n";
+  }
+}
+
 // ---------------------------------------------------------------- standard vector API
 // one-byte integral elements start close to the sign change (values run from 100 over 127 to negative ones): code specialised on byte-sized
 // elements must order them as signed values, like the generic code
@@ -601,7 +638,10 @@ int main(int argc, char **argv) {
       snprintf(head, sizeof head, "=== script %ld\n", h);
       g_out += head;
       if (sec == 0) {
-        switch (h % 22) {
+        switch (h % 25) {
+          case 22: float_fill_script<amc::vector<double> >("double", rng, nops); break;
+          case 23: float_fill_script<amc::SmallVector<float, 4> >("float,4", rng, nops); break;
+          case 24: float_fill_script<amc::FixedCapacityVector<double, 8> >("double,fixed8", rng, nops); break;
           case 8: vector_script<amc::SmallVector<B<3>, 3>, 20>("B3,3", rng, nops); break;
           case 9: vector_script<amc::SmallVector<B<5>, 2>, 20>("B5,2", rng, nops); break;
           case 10: vector_script<amc::SmallVector<B<7>, 2, std::allocator<B<7> >, unsigned char>, 20>("B7,2,u8", rng, nops); break;
